@@ -2,6 +2,7 @@
    [dinfer] is the C06 inference model over the digit tables regenerated from /repo; [natsort_less] the natsort model:
    these are the instances C09/Harness.v runs on the implementation's output. *)
 From Miller Require Import Base.Record C06.Model C06.Harness C11.Model C11.Proofs C09.Model C09.Proofs C09.FloatMono C09.Harness.
+From Miller Require Import C09.Natural C09.StableSort C09.VerbAny C09.WithinModel C09.Within C09.DslFlags.
 From Coq Require Import Permutation.
 Open Scope Z_scope.
 
@@ -102,12 +103,12 @@ Proof.
 Qed.
 Print Assumptions C09_numeric_total_preorder_all_int64_refuted.
 
-(* several keys in precedence order: the chain of lexical / case-folded / numeric comparators is a total preorder on
-   value tuples over the same domain (natural-order keys excluded: see below) *)
+(* several keys in precedence order: the chain of lexical / case-folded / numeric / natural comparators (all eight verb
+   flags) is a total preorder on value tuples over the numeric domain intersected with the clean domain of natural order *)
 Theorem C09_key_chain_total_preorder : forall fl,
-  (forall f, In f fl -> In f [Ff; Fr; Fc; Fcr; Fnf; Fnr]) ->
-  total_preorder_on (fun l => List.length l = List.length fl /\ Forall (num_dom dinfer exact_dom) l) (chain_cmp dinfer natsort_less fl).
-Proof. exact (std_chain_preorder dinfer natsort_less exact_dom float_of_int_mono_exact). Qed.
+  (forall f, In f fl -> In f [Ff; Fr; Fc; Fcr; Fnf; Fnr; Ft; Ftr]) ->
+  total_preorder_on (fun l => List.length l = List.length fl /\ Forall (sort_dom dinfer exact_dom) l) (chain_cmp dinfer natsort_less fl).
+Proof. exact (verb_chain_preorder dinfer exact_dom float_of_int_mono_exact). Qed.
 Print Assumptions C09_key_chain_total_preorder.
 
 (* ---- natural order (github.com/facette/natsort through NaturalAscending/DescendingComparator).
@@ -119,29 +120,59 @@ Theorem C09_natural_transitive_refuted : exists a b c,
 Proof. exact (ex_intro _ (B "9") (ex_intro _ (B "10") (ex_intro _ (B "100000000000000000000") nat_cycle_witness))). Qed.
 Print Assumptions C09_natural_transitive_refuted.
 
-(* (2) distinct texts that natsort deems equal ("01" and "1") get a NON-ZERO result in both directions, so a later key is
-       never consulted for them and the chained callback is not a strict weak order: with keys -t a -f b the records
-       (01,z) and (1,y), and (01,z) and (1,z), are mutually not-less, yet (1,y) is less than (1,z). *)
-Theorem C09_natural_then_other_key_not_weak_order_refuted : exists u v w,
-  less dinfer natsort_less [Ft; Ff] u v = false /\ less dinfer natsort_less [Ft; Ff] v u = false
-  /\ less dinfer natsort_less [Ft; Ff] u w = false /\ less dinfer natsort_less [Ft; Ff] w u = false
-  /\ less dinfer natsort_less [Ft; Ff] v w = true.
-Proof. exact (ex_intro _ [B "01"; B "z"] (ex_intro _ [B "1"; B "y"] (ex_intro _ [B "1"; B "z"] nat_chain_witness))). Qed.
-Print Assumptions C09_natural_then_other_key_not_weak_order_refuted.
+(* (2) everywhere else it IS an order.  natsort.Compare is the non-strict part "<=" of the three-way chunk-list comparison
+       [nat_cmp3] (chunks both numeric: by value; otherwise bytewise; a proper prefix first) on ALL non-empty texts; *)
+Theorem C09_natsort_compare_is_le_of_chunk_order : forall a b, a <> [] -> b <> [] ->
+  natsort_less a b = (nat_cmp3 a b <=? 0).
+Proof. exact natsort_less_cmp3. Qed.
+Print Assumptions C09_natsort_compare_is_le_of_chunk_order.
 
-(* NOT PROVED (full statement, kept for the record): on the clean domain -- texts none of whose digit runs exceeds
-   2^63-1 -- the callback of -t is the strict part of a total preorder, hence a strict weak order:
-     Theorem C09_natural_strict_weak_order_on_clean_domain :
-       exists c3 : bytes -> bytes -> Z, total_preorder_on (fun a => clean a = true) c3
-         /\ forall a b, clean a = true -> clean b = true ->
-              (flag_cmp dinfer natsort_less Ft a b <? 0) = (c3 a b <? 0) /\ (flag_cmp dinfer natsort_less Ftr a b <? 0) = (c3 b a <? 0).
-   with clean a := every chunk of (chunkify a) that starts with a digit has chunk_num = Some _, and c3 := the
-   lexicographic three-way comparison of the chunk lists (chunks both numeric: cmpZ of the values; otherwise lex_cmp;
-   a proper prefix first).  Argument: nat_chunks_less ca cb = (c3 <=? 0) for ca <> [] (natsort.Compare is the NON-strict
-   order); the chunk comparison is a total preorder on good chunks because a digit-first and a non-digit-first chunk are
-   ordered by their first bytes alone (all digit chunks lie between the non-digit chunks starting below '0' and those
-   starting above '9'); lexicographic products of total preorders are total preorders.  Missing: the Coq proof (time).
-   On this domain the full checker check_sort is RUN on mlr's natural-sort outputs (cases 'nat') and accepts them. *)
+(*     the verb's comparators are exactly that comparison, on ALL texts (the empty text first; distinct texts natsort deems
+       equal, 01 and 1, TIE -- since the repair of natural-ties-hide-later-keys -- so that later keys are consulted); *)
+Theorem C09_natural_flags_are_chunk_order : forall a b,
+  flag_cmp dinfer natsort_less Ft a b = nat_cmp3 a b /\ flag_cmp dinfer natsort_less Ftr a b = nat_cmp3 b a.
+Proof. exact (natural_flags_are_cmp3 dinfer). Qed.
+Print Assumptions C09_natural_flags_are_chunk_order.
+
+(*     and it is a total preorder on the clean domain: texts none of whose digit runs exceeds 2^63-1 (the statement that was
+       NOT PROVED in the previous round; by (1) the restriction is necessary). *)
+Theorem C09_natural_total_preorder_on_clean_domain :
+  total_preorder_on (fun a => clean a = true) (flag_cmp dinfer natsort_less Ft)
+  /\ total_preorder_on (fun a => clean a = true) (flag_cmp dinfer natsort_less Ftr).
+Proof. exact (natural_total_preorder dinfer). Qed.
+Print Assumptions C09_natural_total_preorder_on_clean_domain.
+
+(* ---- sort.SliceStable beyond its insertion-sort blocks, abstractly.  The stable sorted arrangement of the group list is
+   UNIQUE, so with ANY function [ssort] that meets the contract of sort.SliceStable for this call (a permutation; no element
+   less than an earlier one; equivalent elements in arrival order) in the place of sort.SliceStable, the verb's output is
+   the output of [sort_model] (insertion sort) and satisfies the full specification -- for any number of groups. *)
+Theorem C09_sort_with_any_stable_sort : forall ks inp,
+  std_keys ks -> keys_in_dom dinfer exact_dom ks inp ->
+  forall ssort, meets_contract dinfer ks inp ssort ->
+  sort_with dinfer ssort ks inp = sort_model dinfer natsort_less ks inp
+  /\ sort_spec dinfer natsort_less ks inp (sort_with dinfer ssort ks inp).
+Proof. exact (sort_with_any_stable_sort dinfer exact_dom float_of_int_mono_exact). Qed.
+Print Assumptions C09_sort_with_any_stable_sort.
+(* the contract is met by insertion sort and by a top-down merge sort, on lists of any length *)
+Theorem C09_insertion_sort_meets_contract : forall ks inp,
+  std_keys ks -> keys_in_dom dinfer exact_dom ks inp -> meets_contract dinfer ks inp (@isort bytes).
+Proof. exact (isort_meets_contract dinfer exact_dom float_of_int_mono_exact). Qed.
+Print Assumptions C09_insertion_sort_meets_contract.
+Theorem C09_merge_sort_meets_contract : forall ks inp,
+  std_keys ks -> keys_in_dom dinfer exact_dom ks inp -> meets_contract dinfer ks inp (fun lt l => msort lt (List.length l) l).
+Proof. exact (msort_meets_contract dinfer exact_dom float_of_int_mono_exact). Qed.
+Print Assumptions C09_merge_sort_meets_contract.
+(* the general statements behind it *)
+Theorem C09_stable_sorted_arrangement_is_unique : forall (A : Type) (lt : A -> A -> bool) (before : A -> A -> Prop) (D : A -> Prop),
+  (forall x y, before x y -> before y x -> False) ->
+  forall l o1 o2, Forall D l -> stable_sorted lt before l o1 -> stable_sorted lt before l o2 -> o1 = o2.
+Proof. exact (fun A => @stable_sorted_unique A). Qed.
+Print Assumptions C09_stable_sorted_arrangement_is_unique.
+(* a sort by an INCONSISTENT callback (user comparator functions, natural order outside the clean domain) still returns
+   a permutation: insertion sort does for any callback whatever *)
+Theorem C09_insertion_sort_permutation_any_callback : forall (A : Type) (lt : A -> A -> bool) l, Permutation (isort lt l) l.
+Proof. exact (fun A => @isort_perm_any A). Qed.
+Print Assumptions C09_insertion_sort_permutation_any_callback.
 
 (* What still holds for sorts with natural-order keys on ALL inputs: the weak checker run on such outputs means a
    permutation, groups contiguous in input order, key-less records last, and no group head strictly less than its
@@ -188,6 +219,46 @@ Theorem C09_sort_within_record : forall r,
 Proof. exact (fun r => conj (sort_within_record_perm r) (sort_within_record_sorted r)). Qed.
 Print Assumptions C09_sort_within_record.
 
+(* sort-within-records with options, nested (JSON) records ([swr_model], C09/WithinModel.v; its output must equal mlr's):
+   -r: keys ascending at EVERY map level, every (path, leaf) pair kept (maps inside arrays are not visited);
+   -f names: the named fields first, sorted, the others after them in record order (a permutation of the fields);
+   -n (natural, a non-strict callback): still a permutation at every level. *)
+Theorem C09_sort_within_records_recursive_sorted : forall r, jsorted (JM (swr_model natsort_less true false None r)).
+Proof. exact (swr_model_recursive_sorted natsort_less). Qed.
+Print Assumptions C09_sort_within_records_recursive_sorted.
+Theorem C09_sort_within_records_recursive_keeps_leaves : forall natural r,
+  Permutation (jflat (JM (swr_model natsort_less true natural None r))) (jflat (JM r)).
+Proof. exact (swr_model_recursive_keeps_leaves natsort_less). Qed.
+Print Assumptions C09_sort_within_records_recursive_keeps_leaves.
+Theorem C09_sort_within_records_selected_permutation : forall recurse natural names r,
+  Permutation (swr_model natsort_less recurse natural (Some names) r) r.
+Proof. exact (swr_model_perm natsort_less). Qed.
+Print Assumptions C09_sort_within_records_selected_permutation.
+Theorem C09_sort_within_records_top_level : forall natural r,
+  Permutation (swr_model natsort_less false natural None r) r
+  /\ Permutation (swr_model natsort_less true natural None r) (map (fun e => (fst e, jsort (if natural then natsort_less else lex_lt) (snd e))) r).
+Proof. exact (swr_model_top_level natsort_less). Qed.
+Print Assumptions C09_sort_within_records_top_level.
+
+(* the flag string of the DSL functions sort(collection, "flags") (decodeSortFlags, modelled in C09/DslFlags.v): scanned left to
+   right; the LAST of n f c t selects the sort type (default numerical), r anywhere reverses, v anywhere selects map values,
+   every other character is ignored *)
+Theorem C09_dsl_flags_last_type_letter_wins : forall s1 c s2,
+  is_type_char c = true -> forallb (fun c => negb (is_type_char c)) s2 = true ->
+  fst (fst (decode_sort_flags (s1 ++ c :: s2))) = type_of_char c.
+Proof. exact decode_last_type_wins. Qed.
+Print Assumptions C09_dsl_flags_last_type_letter_wins.
+Theorem C09_dsl_flags_reverse_and_by_value : forall s,
+  snd (fst (decode_sort_flags s)) = existsb (fun c => Ascii.eqb c "r") s /\ snd (decode_sort_flags s) = existsb (fun c => Ascii.eqb c "v") s.
+Proof. exact (fun s => conj (decode_from_rev s TNum false false) (decode_from_byv s TNum false false)). Qed.
+Print Assumptions C09_dsl_flags_reverse_and_by_value.
+(* the flag strings the correspondence uses (DSL_FLAGS in c09.py) and the comparators it checks their outputs with *)
+Example C09_dsl_flag_table :
+  map dsl_flag_of [B "f"; B "fr"; B "c"; B "cr"; B ""; B "n"; B "nr"; B "t"; B "tr"; B "rc"; B "rt"; B "fv"; B "xnqc"]
+  = [(Ff, false); (Fr, false); (Dc, false); (Dcr, false); (Fnf, false); (Fnf, false); (Fnr, false); (Dt, false); (Dtr, false);
+     (Dcr, false); (Dtr, false); (Ff, true); (Dc, false)].
+Proof. vm_compute. reflexivity. Qed.
+
 (* ---- non-vacuity *)
 Definition ex_in : list record :=
   [ [(B "x", B "10"); (B "i", B "0")]; [(B "x", B "abc"); (B "i", B "1")]; [(B "i", B "2")]; [(B "x", B "0x9"); (B "i", B "3")];
@@ -212,4 +283,14 @@ Example C09_nonvacuous_natural :
   /\ forallb (fun o => negb (check_sort dinfer natsort_less [(B "a", Ft)] (cyc [B "9"; B "100000000000000000000"; B "10"]) (cyc o)))
        [[B "9"; B "10"; B "100000000000000000000"]; [B "9"; B "100000000000000000000"; B "10"]; [B "10"; B "9"; B "100000000000000000000"];
         [B "10"; B "100000000000000000000"; B "9"]; [B "100000000000000000000"; B "9"; B "10"]; [B "100000000000000000000"; B "10"; B "9"]] = true.
+Proof. vm_compute. repeat split; reflexivity. Qed.
+Definition ex_j : jrec := [(B "id", JS (B "1")); (B "meta", JM [(B "z", JS (B "1")); (B "x", JA [JM [(B "q", JS (B "0")); (B "p", JS (B "0"))]])])].
+Example C09_nonvacuous_round3 :
+  clean (B "a01b9223372036854775807") = true /\ clean (B "a9223372036854775808") = false
+  /\ flag_cmp dinfer natsort_less Ft (B "01") (B "1") = 0 /\ flag_cmp dinfer natsort_less Ft (B "") (B "0") = -1
+  /\ less dinfer natsort_less [Ft; Ff] [B "1"; B "y"] [B "01"; B "z"] = true
+  /\ sort_with dinfer (fun lt l => msort lt (List.length l) l) [(B "x", Fnf)] ex_in = ex_out
+  /\ sort_model dinfer natsort_less [(B "x", Fnf)] ex_in = ex_out
+  /\ swr_model natsort_less true false None ex_j
+     = [(B "id", JS (B "1")); (B "meta", JM [(B "x", JA [JM [(B "q", JS (B "0")); (B "p", JS (B "0"))]]); (B "z", JS (B "1"))])].
 Proof. vm_compute. repeat split; reflexivity. Qed.
